@@ -285,7 +285,8 @@ def write_evidence(check, prop, tier, verif_seed, agg, wall, violations, known_s
                    guards, harness_errors, nblocks):
     os.makedirs(EVIDENCE_DIR, exist_ok=True)
     runs = max(agg['runs'], 0)
-    probes_zero = sorted(p for p in getattr(check, 'PROBES', []) if agg['probes'].get(p, 0) == 0)
+    skip = getattr(check, 'PROBES_THOROUGH_ONLY', []) if tier == 'quick' else []
+    probes_zero = sorted(p for p in getattr(check, 'PROBES', []) if agg['probes'].get(p, 0) == 0 and p not in skip)
     cov = {
         'evaluations': runs,
         'distinct_nontrivial': len(agg['fps']),
